@@ -108,7 +108,7 @@ def gen(rng, n, tier):
             agents = rng.sample(AGT_POOL, na)
             if agents and rng.random() < 0.15:
                 agents.append(agents[0])
-            c = dict(kind="scenario", evts=rng.choice([0, 1, 1, 2, 2, 3, 4]),
+            c = dict(kind="scenario", evts=rng.choice([0, 1, 1, 2, 2, 3, 3, 4, 5]),
                      actions=rng.choice([-1, 0, 1, 1, 1, 2, 2, 3]), delay=rng.randint(0, 30),
                      init=rng.randint(0, 30), end=rng.randint(0, 30), agents=agents,
                      seed=rng.randint(0, 10 ** 9))
@@ -229,7 +229,8 @@ def run_impl(c):
         var_of = {node: "v%02d" % i for i, node in enumerate(sorted(g.nodes))}
         orders = [[var_of[u], var_of[v]] for u, v in g.edges]
         return dict(nodes=[_enc(x) for x in g.nodes], edges=[[_enc(u), _enc(v)] for u, v in g.edges],
-                    rnd=proxy.randints, name=d.name, domain=list(d.domains["colors"].values),
+                    rnd=proxy.randints, name=d.name,
+                    domain=list(d.domains["colors"].values) if "colors" in d.domains else None,
                     domains=list(d.domains), objective=d.objective,
                     vars=list(d.variables), var_names=[v.name for v in d.variables.values()],
                     var_domains=sorted({v.domain.name for v in d.variables.values()}),
